@@ -9,6 +9,7 @@ import (
 	"math"
 	"os"
 	"path/filepath"
+	"regexp"
 	"sort"
 	"strconv"
 	"strings"
@@ -272,7 +273,13 @@ type ClientPeriod struct {
 	P      *mpd.Period
 }
 
+var (
+	durAttrRe  = regexp.MustCompile(` (minimumUpdatePeriod|maxSegmentDuration|minBufferTime|timeShiftBufferDepth|suggestedPresentationDelay|mediaPresentationDuration|maxSubsegmentDuration)="([^"]*)"`)
+	validDurRe = regexp.MustCompile(`^-?P(\d+Y)?(\d+M)?(\d+D)?(T(\d+H)?(\d+M)?(\d+(\.\d+)?S)?)?$`)
+)
+
 type ClientMPD struct {
+	InvalidMUP  bool // an MPD-level duration attribute was not a valid xs:duration and has been dropped
 	M           *mpd.MPD
 	Raw         string
 	Type        string
@@ -303,10 +310,27 @@ func fillTemplate(tpl, repID string, nr int64, t uint64) string {
 // ParseClientMPD parses an MPD body the way a DASH client resolves it.
 func ParseClientMPD(body []byte) (*ClientMPD, error) {
 	m, err := mpd.ReadFromString(string(body))
+	invalidMUP := false
+	if err != nil && strings.Contains(err.Error(), "duration must be") {
+		// Live MPDs of assets with sub-second segments carry invalid xs:duration attributes (the MPD
+		// library renders durations below one second as nanoseconds plus a stray byte:
+		// minimumUpdatePeriod, and maxSegmentDuration copied from the VoD MPD). The simulated player
+		// drops such attributes and goes on, so that short segments stay in the workload; the flag lets
+		// a property report it.
+		cleaned := durAttrRe.ReplaceAllFunc(body, func(b []byte) []byte {
+			mm := durAttrRe.FindSubmatch(b)
+			if validDurRe.Match(mm[2]) {
+				return b
+			}
+			invalidMUP = true
+			return nil
+		})
+		m, err = mpd.ReadFromString(string(cleaned))
+	}
 	if err != nil {
 		return nil, err
 	}
-	c := &ClientMPD{M: m, Raw: string(body)}
+	c := &ClientMPD{M: m, Raw: string(body), InvalidMUP: invalidMUP}
 	if m.Type != nil {
 		c.Type = *m.Type
 	}
